@@ -6,7 +6,7 @@ every local variable of that function, rename the variable consistently inside t
 and re-run the property's rules: a consistent rename leaves behaviour unchanged, so ANY new violated/blind obligation is a
 false alarm of a rule that matches a frozen source fragment.
 
-usage: renamefuzz.py [Cnn ...] [-j N] [--repo DIR]      (default: all properties)
+usage: renamefuzz.py [Cnn ...] [-j N] [--repo DIR] [--only qualname-substring,...]      (default: all properties)
 Writes /tmp/renamefuzz.json and prints one line per false alarm.  Nothing is kept under /tmp that a registered command needs.
 """
 import ast
@@ -125,6 +125,7 @@ def main():
     args = [a for a in sys.argv[1:]]
     jobs_n = 12
     repo = "/repo"
+    only = None
     props = []
     i = 0
     while i < len(args):
@@ -132,6 +133,8 @@ def main():
             jobs_n = int(args[i + 1]); i += 2
         elif args[i] == "--repo":
             repo = args[i + 1]; i += 2
+        elif args[i] == "--only":
+            only = args[i + 1].split(","); i += 2
         else:
             props.append(args[i]); i += 1
     props = props or [f"C{i:02d}" for i in range(1, 21)]
@@ -140,6 +143,8 @@ def main():
         mod, funcs, base_v, base_b = anchors(prop, repo)
         n = 0
         for q, f in sorted(funcs.items()):
+            if only and not any(o in q for o in only):
+                continue
             for var in locals_of(f.node):
                 jobs.append((prop, repo, f.file, q, f.node.lineno, var, sorted(base_v), sorted(base_b)))
                 n += 1
